@@ -721,6 +721,41 @@ func c18GenTrav(tier string, rng *rand.Rand, emit func(interface{})) {
 }
 
 // ---------------------------------------------------------------- op 3: SCC
+// the value a caller appends to result slices (not a node or component id)
+const c18AppendSentinel = -7
+
+// c18Independent: as a caller may, append a sentinel to EVERY slice a result hands out (read returns
+// the live slices, not copies), then read all of them again and compare with the first reading.
+// Appending to one result must never change another result (cap == len is not demanded).
+func c18Independent(read func() [][]int, first [][]int) bool {
+	ok := true
+	if p, _ := catch(func() {
+		for _, s := range read() {
+			_ = append(s, c18AppendSentinel)
+		}
+		again := read()
+		if len(again) != len(first) {
+			ok = false
+			return
+		}
+		for i := range again {
+			if len(again[i]) != len(first[i]) {
+				ok = false
+				return
+			}
+			for k := range again[i] {
+				if again[i][k] != first[i][k] {
+					ok = false
+					return
+				}
+			}
+		}
+	}); p {
+		ok = false
+	}
+	return ok
+}
+
 func c18RunSCC(c *c18Case, l *Line) (*Line, error) {
 	if err := c18ValidGraph(c.G); err != nil {
 		return nil, err
@@ -737,8 +772,10 @@ func c18RunSCC(c *c18Case, l *Line) (*Line, error) {
 	if c.Flags != 0 {
 		hascof = 1
 	}
+	var scc *graphalg.SCCGraph
 	pan, _ := catch(func() {
 		s := graphalg.SCC(g, graphalg.SCCFlags(c.Flags))
+		scc = s
 		nc := s.NumNodes()
 		for cid := 0; cid < nc; cid++ {
 			comps = append(comps, append([]int{}, s.Subnodes(cid)...))
@@ -769,7 +806,33 @@ func c18RunSCC(c *c18Case, l *Line) (*Line, error) {
 			l.Is(x)
 		}
 	}
-	l.B(c18Same(orig, c.G)).c18Graph(c.G)
+	indep := true
+	if !pan {
+		indep = c18Independent(func() [][]int {
+			var r [][]int
+			for cid := 0; cid < scc.NumNodes(); cid++ {
+				r = append(r, scc.Subnodes(cid))
+			}
+			for cid := 0; cid < scc.NumNodes(); cid++ {
+				r = append(r, scc.Out(cid))
+			}
+			if c.Flags != 0 {
+				again := []int{}
+				for v := 0; v < len(c.G); v++ {
+					again = append(again, scc.SubnodeComponent(v))
+				}
+				r = append(r, again)
+			}
+			return r
+		}, func() [][]int {
+			first := append(append([][]int{}, comps...), outs...)
+			if c.Flags != 0 {
+				first = append(first, append([]int{}, cof...))
+			}
+			return first
+		}())
+	}
+	l.B(c18Same(orig, c.G) && indep).c18Graph(c.G)
 	return l, nil
 }
 
@@ -845,8 +908,10 @@ func c18RunBi(c *c18Case, l *Line) (*Line, error) {
 	l.c18Graph(orig)
 	var ins, bout [][]int
 	idem := true
+	var big graph.BiGraph
 	pan, _ := catch(func() {
 		b := graph.MakeBiGraph(g)
+		big = b
 		// the result's own NumNodes / Out are transported (bout); In is asked for every node of the argument
 		nb := b.NumNodes()
 		bout = [][]int{}
@@ -870,7 +935,18 @@ func c18RunBi(c *c18Case, l *Line) (*Line, error) {
 		}
 		l.c18Graph(bout).B(idem)
 	}
-	l.B(c18Same(orig, c.G)).c18Graph(c.G)
+	indep := true
+	if !pan {
+		// In lists only: Out(j) of the result is the argument's own list
+		indep = c18Independent(func() [][]int {
+			var r [][]int
+			for j := 0; j < len(orig); j++ {
+				r = append(r, big.In(j))
+			}
+			return r
+		}, ins)
+	}
+	l.B(c18Same(orig, c.G) && indep).c18Graph(c.G)
 	return l, nil
 }
 
@@ -941,12 +1017,14 @@ func c18RunSimplify(c *c18Case, l *Line) (*Line, error) {
 	}
 	var rg [][]int
 	var rw [][]float64
+	var simp graph.Graph
 	pan, _ := catch(func() {
 		in := c.graph()
 		if weighted {
 			in = c18Weighted{graph.IntGraph(c.G), w}
 		}
 		r := graphalg.SimplifyMulti(in)
+		simp = r
 		for i := 0; i < r.NumNodes(); i++ {
 			o := append([]int{}, r.Out(i)...)
 			rg = append(rg, o)
@@ -966,6 +1044,15 @@ func c18RunSimplify(c *c18Case, l *Line) (*Line, error) {
 		}
 	}
 	pure := c18Same(orig, c.G)
+	if !pan && !c18Independent(func() [][]int {
+		var r [][]int
+		for i := 0; i < simp.NumNodes(); i++ {
+			r = append(r, simp.Out(i))
+		}
+		return r
+	}, rg) {
+		pure = false
+	}
 	if weighted {
 		for i := range w {
 			for j := range w[i] {
@@ -1011,8 +1098,10 @@ func c18RunSub(c *c18Case, l *Line) (*Line, error) {
 		emap []int
 	}
 	var res []nd
+	var sub graph.Subgraph
 	pan, _ := catch(func() {
 		var s graph.Subgraph
+		defer func() { sub = s }()
 		if c.Op == 7 {
 			s = graph.SubgraphKeep(c.graph(), nodes, edges)
 		} else {
@@ -1038,6 +1127,21 @@ func c18RunSub(c *c18Case, l *Line) (*Line, error) {
 		}
 	}
 	pure := c18Same(orig, c.G) && len(nodes) == len(c.Nodes)
+	if !pan {
+		first := make([][]int, len(res))
+		for i := range res {
+			first[i] = res[i].out
+		}
+		if !c18Independent(func() [][]int {
+			var r [][]int
+			for i := 0; i < sub.NumNodes(); i++ {
+				r = append(r, sub.Out(i))
+			}
+			return r
+		}, first) {
+			pure = false
+		}
+	}
 	for i := range nodes {
 		if pure && nodes[i] != c.Nodes[i] {
 			pure = false
